@@ -34,6 +34,9 @@ class YowMediaProtocolLayer(YowProtocolLayer):
     def recvMessageStanza(self, node):
         if node.getAttributeValue("type") == "media":
             mediaNode = node.getChild("proto")
+            if mediaNode is None:
+                # still encrypted: no encryption layers below, nothing this layer can present
+                return
             if self.isSenderKeyDistributionOnly(mediaNode):
                 # first message into a group: this envelope only carried the sender key, the media follows
                 return
